@@ -92,71 +92,7 @@ def run(ctx):
         if ops != ["item.user_count", "self.user_count"]:
             r.violate("HandlerVec::" + nm, f"HandlerVec::{nm} updates {ops}; the per-item count and the total must move together (has_active decides which tokens are captured)", "src/rewriter/handlers_dispatcher.rs")
 
-    # ------------------------------------------------------------------ R05.2
-    r = ctx.rule("R05.2", "kind <-> capture flag <-> token: one table is implemented by get_token_capture_flags, handle_token and both to_token impls; one-shot flags are cleared exactly for the two tag kinds", "E-AST", floor=15)
-    gf = idx.one("get_token_capture_flags", owner="ContentHandlersDispatcher")
-    got = {}
-    for n in walk(gf.node["body"]):
-        if n.get("k") == "If":
-            c = n["cond"]
-            if c.get("k") == "MethodCall" and c["method"] == "has_active" and c["recv"].get("k") == "Field":
-                fld = c["recv"]["member"]
-                fl = [m["right"]["path"].split("::")[-1] for m in walk(n["then"]) if m.get("k") == "Binary" and m["op"] == "|=" and m["right"].get("k") == "Path"]
-                got[fld] = fl
-    for fld, (flag, tok) in KINDS.items():
-        r.inst("flags|" + fld, sample={"vector": fld, "flag": got.get(fld)})
-        if got.get(fld) != [flag]:
-            r.violate("flags|" + fld, f"get_token_capture_flags requests {got.get(fld)} when {fld} has active handlers, expected [{flag}]: those tokens would not be captured (handlers never fire) or the wrong kind would be", "src/rewriter/handlers_dispatcher.rs")
-    extra = set(got) - set(KINDS)
-    if extra:
-        r.violate("flags|extra", f"get_token_capture_flags has unexpected entries {sorted(extra)}", "src/rewriter/handlers_dispatcher.rs")
-    arms = {}
-    for n in walk(ht.node["body"]):
-        if n.get("k") == "Match":
-            for arm in n["arms"]:
-                pat = arm["pat"]
-                v = (pat.get("path") or "").split("::")[-1]
-                flds = [m["recv"]["member"] for m in walk(arm["body"]) if m.get("k") == "MethodCall" and m["recv"].get("k") == "Field" and m["recv"]["base"].get("s") == "self"]
-                meths = [m["method"] for m in walk(arm["body"]) if m.get("k") == "MethodCall" and m["recv"].get("k") == "Path" and m["recv"]["path"] == "self"]
-                arms[v] = (flds, meths)
-    for fld, (flag, tok) in KINDS.items():
-        r.inst("dispatch|" + tok, sample={"token": tok, "handled_by": arms.get(tok)})
-        a = arms.get(tok)
-        if tok == "StartTag":
-            if not a or a[1] != ["handle_start_tag"]:
-                r.violate("dispatch|" + tok, f"Token::StartTag is dispatched to {a}, expected handle_start_tag", "src/rewriter/handlers_dispatcher.rs")
-        elif not a or a[0] != [fld]:
-            r.violate("dispatch|" + tok, f"Token::{tok} is dispatched to {a}, expected {fld}", "src/rewriter/handlers_dispatcher.rs")
-    # to_token
-    tt = [f for f in idx.fns if f.name == "to_token" and f.trait == "ToToken"]
-    if len(tt) != 2:
-        raise EngineError("anchor: two ToToken impls")
-    seen = {}
-    for f in tt:
-        for n in walk(f.node["body"]):
-            if n.get("k") == "Match":
-                for arm in n["arms"]:
-                    g = arm.get("guard")
-                    if g is None:
-                        continue
-                    flag = [m["path"].split("::")[-1] for m in walk(g) if m.get("k") == "Path" and m["path"].startswith("TokenCaptureFlags::")]
-                    ctor = [m["func"]["path"] for m in walk(arm["body"]) if m.get("k") == "Call" and m["func"].get("k") == "Path" and (m["func"]["path"].endswith("::new_token") or m["func"]["path"].startswith("ToTokenResult::Text"))]
-                    removed = [m["args"][0]["path"].split("::")[-1] for m in walk(arm["body"]) if m.get("k") == "MethodCall" and m["method"] == "remove" and m["args"] and m["args"][0].get("k") == "Path"]
-                    outline = (arm["pat"].get("s") or arm["pat"].get("path") or "")
-                    ov = re.findall(r"(StartTag|EndTag|Text|Comment|Doctype)", outline)
-                    seen[ov[0] if ov else outline] = (flag, ctor, removed)
-    want = {
-        "StartTag": (["NEXT_START_TAG"], "StartTag::new_token", ["NEXT_START_TAG"]),
-        "EndTag": (["NEXT_END_TAG"], "EndTag::new_token", ["NEXT_END_TAG"]),
-        "Text": (["TEXT"], "ToTokenResult::Text", []),
-        "Comment": (["COMMENTS"], "Comment::new_token", []),
-        "Doctype": (["DOCTYPES"], "Doctype::new_token", []),
-    }
-    for k, (flag, ctor, removed) in want.items():
-        r.inst("to_token|" + k, sample={"outline": k, "got": seen.get(k)})
-        g = seen.get(k)
-        if not g or g[0] != flag or not any(c.endswith(ctor) or c == ctor for c in g[1]) or g[2] != removed:
-            r.violate("to_token|" + k, f"to_token for a {k} lexeme: guard {g[0] if g else None}, constructs {g[1] if g else None}, clears {g[2] if g else None}; expected guard {flag}, {ctor}, clears {removed}", "src/rewritable_units/tokens/capturer/to_token.rs")
+    rule_flag_table(ctx, idx, mir)
 
     # ------------------------------------------------------------------ R05.3
     r = ctx.rule("R05.3", "order: selector-associated handlers are registered before document handlers (so they run first for one token), the charset handler first of all; handler vectors are iterated front to back", "E-MIR + E-AST", floor=4)
@@ -260,3 +196,74 @@ def run(ctx):
     ctx.not_decided += ["exactly-once delivery over all open/close sequences (needs the selector VM's run-time behaviour)", "text flushed before a tag is reported is rule R02.4 (C02)"]
     return ("Bookkeeping clauses of scoped dispatch read from the expanded syntax tree and MIR: balance and independence of handler activation, "
             "the kind/flag/token table across four functions, registration and iteration order, one-shot consumption of element/end-tag/end handlers.")
+
+
+def rule_flag_table(ctx, idx, mir, rid="R05.2"):
+    ht = idx.one("handle_token", owner="ContentHandlersDispatcher")
+    hs = idx.one("handle_start_tag", owner="ContentHandlersDispatcher")
+    # ------------------------------------------------------------------ R05.2
+    r = ctx.rule(rid, "kind <-> capture flag <-> token: one table is implemented by get_token_capture_flags, handle_token and both to_token impls; one-shot flags are cleared exactly for the two tag kinds", "E-AST", floor=15)
+    gf = idx.one("get_token_capture_flags", owner="ContentHandlersDispatcher")
+    got = {}
+    for n in walk(gf.node["body"]):
+        if n.get("k") == "If":
+            c = n["cond"]
+            if c.get("k") == "MethodCall" and c["method"] == "has_active" and c["recv"].get("k") == "Field":
+                fld = c["recv"]["member"]
+                fl = [m["right"]["path"].split("::")[-1] for m in walk(n["then"]) if m.get("k") == "Binary" and m["op"] == "|=" and m["right"].get("k") == "Path"]
+                got[fld] = fl
+    for fld, (flag, tok) in KINDS.items():
+        r.inst("flags|" + fld, sample={"vector": fld, "flag": got.get(fld)})
+        if got.get(fld) != [flag]:
+            r.violate("flags|" + fld, f"get_token_capture_flags requests {got.get(fld)} when {fld} has active handlers, expected [{flag}]: those tokens would not be captured (handlers never fire) or the wrong kind would be", "src/rewriter/handlers_dispatcher.rs")
+    extra = set(got) - set(KINDS)
+    if extra:
+        r.violate("flags|extra", f"get_token_capture_flags has unexpected entries {sorted(extra)}", "src/rewriter/handlers_dispatcher.rs")
+    arms = {}
+    for n in walk(ht.node["body"]):
+        if n.get("k") == "Match":
+            for arm in n["arms"]:
+                pat = arm["pat"]
+                v = (pat.get("path") or "").split("::")[-1]
+                flds = [m["recv"]["member"] for m in walk(arm["body"]) if m.get("k") == "MethodCall" and m["recv"].get("k") == "Field" and m["recv"]["base"].get("s") == "self"]
+                meths = [m["method"] for m in walk(arm["body"]) if m.get("k") == "MethodCall" and m["recv"].get("k") == "Path" and m["recv"]["path"] == "self"]
+                arms[v] = (flds, meths)
+    for fld, (flag, tok) in KINDS.items():
+        r.inst("dispatch|" + tok, sample={"token": tok, "handled_by": arms.get(tok)})
+        a = arms.get(tok)
+        if tok == "StartTag":
+            if not a or a[1] != ["handle_start_tag"]:
+                r.violate("dispatch|" + tok, f"Token::StartTag is dispatched to {a}, expected handle_start_tag", "src/rewriter/handlers_dispatcher.rs")
+        elif not a or a[0] != [fld]:
+            r.violate("dispatch|" + tok, f"Token::{tok} is dispatched to {a}, expected {fld}", "src/rewriter/handlers_dispatcher.rs")
+    # to_token
+    tt = [f for f in idx.fns if f.name == "to_token" and f.trait == "ToToken"]
+    if len(tt) != 2:
+        raise EngineError("anchor: two ToToken impls")
+    seen = {}
+    for f in tt:
+        for n in walk(f.node["body"]):
+            if n.get("k") == "Match":
+                for arm in n["arms"]:
+                    g = arm.get("guard")
+                    if g is None:
+                        continue
+                    flag = [m["path"].split("::")[-1] for m in walk(g) if m.get("k") == "Path" and m["path"].startswith("TokenCaptureFlags::")]
+                    ctor = [m["func"]["path"] for m in walk(arm["body"]) if m.get("k") == "Call" and m["func"].get("k") == "Path" and (m["func"]["path"].endswith("::new_token") or m["func"]["path"].startswith("ToTokenResult::Text"))]
+                    removed = [m["args"][0]["path"].split("::")[-1] for m in walk(arm["body"]) if m.get("k") == "MethodCall" and m["method"] == "remove" and m["args"] and m["args"][0].get("k") == "Path"]
+                    outline = (arm["pat"].get("s") or arm["pat"].get("path") or "")
+                    ov = re.findall(r"(StartTag|EndTag|Text|Comment|Doctype)", outline)
+                    seen[ov[0] if ov else outline] = (flag, ctor, removed)
+    want = {
+        "StartTag": (["NEXT_START_TAG"], "StartTag::new_token", ["NEXT_START_TAG"]),
+        "EndTag": (["NEXT_END_TAG"], "EndTag::new_token", ["NEXT_END_TAG"]),
+        "Text": (["TEXT"], "ToTokenResult::Text", []),
+        "Comment": (["COMMENTS"], "Comment::new_token", []),
+        "Doctype": (["DOCTYPES"], "Doctype::new_token", []),
+    }
+    for k, (flag, ctor, removed) in want.items():
+        r.inst("to_token|" + k, sample={"outline": k, "got": seen.get(k)})
+        g = seen.get(k)
+        if not g or g[0] != flag or not any(c.endswith(ctor) or c == ctor for c in g[1]) or g[2] != removed:
+            r.violate("to_token|" + k, f"to_token for a {k} lexeme: guard {g[0] if g else None}, constructs {g[1] if g else None}, clears {g[2] if g else None}; expected guard {flag}, {ctor}, clears {removed}", "src/rewritable_units/tokens/capturer/to_token.rs")
+
